@@ -967,6 +967,9 @@ REGISTRY = dict(
     "allocates such a pack (PackAlloc.selectPackMapping_dropEmpty), so C06/C14 apply the theorems to the problem "
     "without them and uniqueness is among allocations that use no channel-less pack; "
     "at the excluded points the real code reports an ambiguity as unique / reports duplicates (recorded, not alarmed). "
+    "Outside WF but inside the property's quantifier, the 'separable duplicate' family (a channel format listed twice in "
+    "one pack on different nested paths, every track fitting exactly one channel, every track order) is searched on "
+    "every run and decided by the independent docstring brute force (not by a theorem). "
     "'Each channel exactly once' is read as 'in pack.channels order', which is what the code returns.",
     technique="Lean 4 invariant proofs over the recursive search (soundness: accounting invariant; completeness: "
     "target-following invariant; no-duplicates: in-place extension + disjoint branches) + differential "
